@@ -105,6 +105,30 @@ pub enum Op {
         main_path: Vec<String>,
         opts: Opts,
     },
+    /// The real `prqlc` command-line binary (built from /repo's working tree, hooks off, no
+    /// instrumentation) run as a process of its own on a directory the operation writes out:
+    /// `prqlc <args> project [- [main_path]]` with the working directory above `project`.
+    /// Its hash seeds and the order in which its directories are enumerated are behind
+    /// LD_PRELOAD seams (sim/preload/verif_preload.c): `hash_base` decides every std
+    /// `RandomState` of the process, `readdir_seed` the order `readdir` yields (0 = sorted).
+    /// Observes exit status, stdout and stderr; with `rewrite` (`prqlc fmt`, which rewrites
+    /// the files in place) also the content of every file afterwards.
+    Cli {
+        files: Vec<(String, String)>,
+        args: Vec<String>,
+        #[serde(default, skip_serializing_if = "Option::is_none")]
+        main_path: Option<String>,
+        #[serde(default, skip_serializing_if = "std::ops::Not::not")]
+        rewrite: bool,
+        /// `--debug-log <file>`: the CLI installs its `MessageLogger` and brackets the
+        /// compilation with a debug session; the log file itself is not compared
+        #[serde(default, skip_serializing_if = "std::ops::Not::not")]
+        debug_log: bool,
+        #[serde(default)]
+        hash_base: u64,
+        #[serde(default)]
+        readdir_seed: u64,
+    },
     /// set (`Some`) or unset (`None`) PRQL_VERSION_OVERRIDE; only at quiescent points
     SetEnv { value: Option<String> },
     /// change the process's working directory (a host may); only at quiescent points
@@ -125,6 +149,7 @@ impl Op {
             Op::CApi { .. } => "c_api",
             Op::EditInPlace { .. } => "edit_in_place",
             Op::Project { .. } => "project",
+            Op::Cli { .. } => "cli",
             Op::SetEnv { .. } => "set_env",
             Op::SetCwd { .. } => "set_cwd",
         }
@@ -668,6 +693,15 @@ fn do_op(op: &Op) -> Obs {
                 )),
             }
         }
+        Op::Cli {
+            files,
+            args,
+            main_path,
+            rewrite,
+            debug_log,
+            hash_base,
+            readdir_seed,
+        } => cli_process(files, args, main_path.as_deref(), *rewrite, *debug_log, *hash_base, *readdir_seed),
         Op::SetCwd { dir } => {
             let _ = std::env::set_current_dir(dir);
             Obs::ok(String::new())
@@ -679,6 +713,98 @@ fn do_op(op: &Op) -> Obs {
             }
             Obs::ok(String::new())
         }
+    }
+}
+
+pub const CLI_SCRATCH: &str = "/dev/shm/prql-sim-cli";
+
+/// Where the CLI binary and the preload library are: next to the simulator's own build
+/// (`target/cli/...`), whatever process image we are (`/proc/self/exe` after a fresh exec too).
+pub fn cli_paths() -> (PathBuf, PathBuf) {
+    let exe = std::fs::read_link("/proc/self/exe").unwrap_or_else(|_| PathBuf::from("target/debug/sim"));
+    let target = exe.parent().and_then(|p| p.parent()).map(|p| p.to_path_buf()).unwrap_or_else(|| PathBuf::from("target"));
+    (target.join("cli/debug/prqlc"), target.join("cli/libverif_preload.so"))
+}
+
+fn cli_process(
+    files: &[(String, String)],
+    args: &[String],
+    main_path: Option<&str>,
+    rewrite: bool,
+    debug_log: bool,
+    hash_base: u64,
+    readdir_seed: u64,
+) -> Obs {
+    use std::sync::atomic::{AtomicU64, Ordering};
+    static N: AtomicU64 = AtomicU64::new(0);
+    let (bin, preload) = cli_paths();
+    let base = std::env::var_os("VERIF_CLI_SCRATCH").map(PathBuf::from).unwrap_or_else(|| PathBuf::from(CLI_SCRATCH));
+    let top = base.join(format!("{}-{}", std::process::id(), N.fetch_add(1, Ordering::Relaxed)));
+    let root = top.join("project");
+    let fail = |what: &str, e: std::io::Error| Obs::noreturn(format!("HARNESS cli: {what}: {e}"));
+    if let Err(e) = std::fs::create_dir_all(&root) {
+        return fail("scratch directory", e);
+    }
+    for (p, c) in files {
+        let path = root.join(decode_path(p));
+        if let Some(d) = path.parent() {
+            let _ = std::fs::create_dir_all(d);
+        }
+        if let Err(e) = std::fs::write(&path, c) {
+            let _ = std::fs::remove_dir_all(&top);
+            return fail("write", e);
+        }
+    }
+    let mut cmd = std::process::Command::new(&bin);
+    cmd.current_dir(&top).env_clear();
+    cmd.env("LD_PRELOAD", &preload)
+        .env("VERIF_CLI_HASH_BASE", hash_base.to_string())
+        .env("VERIF_CLI_READDIR_SEED", readdir_seed.to_string())
+        .env("RUST_BACKTRACE", "0");
+    if let Ok(v) = std::env::var("PRQL_VERSION_OVERRIDE") {
+        cmd.env("PRQL_VERSION_OVERRIDE", v);
+    }
+    cmd.args(args);
+    if debug_log {
+        cmd.arg("--debug-log").arg("debug-log.json");
+    }
+    cmd.arg("project");
+    if !rewrite {
+        cmd.arg("-");
+        if let Some(m) = main_path {
+            cmd.arg(m);
+        }
+    }
+    cmd.stdin(std::process::Stdio::null());
+    let out = match cmd.output() {
+        Ok(o) => o,
+        Err(e) => {
+            let _ = std::fs::remove_dir_all(&top);
+            return fail("spawn", e);
+        }
+    };
+    let mut text = format!(
+        "EXIT {:?}\nSTDOUT {}\nSTDERR {}",
+        out.status.code(),
+        String::from_utf8_lossy(&out.stdout),
+        String::from_utf8_lossy(&out.stderr)
+    );
+    // `fmt` rewrites the files one by one and stops at the first that does not parse. Which
+    // files it had got to by then is not an output the property names (SQL, RQ, error text,
+    // formatted PRQL): the files are compared when the command succeeded, i.e. when every one
+    // of them holds its formatted text.
+    if rewrite && out.status.code() == Some(0) {
+        let mut names: Vec<&(String, String)> = files.iter().collect();
+        names.sort();
+        for (p, _) in names {
+            let c = std::fs::read(root.join(decode_path(p))).unwrap_or_default();
+            text.push_str(&format!("\nFILE {p}\n{}", String::from_utf8_lossy(&c)));
+        }
+    }
+    let _ = std::fs::remove_dir_all(&top);
+    match out.status.code() {
+        Some(0) => Obs::ok(text),
+        _ => Obs::err(text),
     }
 }
 
